@@ -52,6 +52,22 @@ def run(ctx):
                 if len(ks) >= 2 and A.string_literal(ks[0]) is not None and A.string_literal(ks[1]) is not None:
                     blocks["port " + A.string_literal(ks[0])] = A.string_literal(ks[1])
     ctx.require(len(blocks) >= 55, "only %d metadata blocks found in the witness units" % len(blocks))
+    # ---- R17.4: the writers spell the VALUE of a preprocessor constant handed to them
+    ctx.rule("R17.4", "WRITER-EXPANDS: a metadata macro handed preprocessor constants (a port table written with named constants) produces the block it produces for the constants' values - the witness unit expands every macro both ways and the two string literals must be equal")
+    consts4 = {}
+    for d in mu.decls:
+        for x in A.walk(d):
+            if x.get("kind") == "VarDecl" and x.get("name", "").startswith("K_") and A.kids(x):
+                lit = A.string_literal(A.kids(x)[-1])
+                if lit is not None:
+                    consts4[x["name"][2:]] = (lit, x)
+    for nm4, (lit4, x4) in sorted(consts4.items()):
+        ref4 = blocks.get("macro " + nm4)
+        ctx.ob("R17.4", nm4, ref4 is not None and lit4 == ref4, site=A.where(x4),
+               detail={"with_constants": lit4.replace("\0", "\\0"), "with_their_values": (ref4 or "").replace("\0", "\\0")},
+               key="R17.4:%s" % nm4,
+               what="%s handed preprocessor constants writes `%s`, handed their values `%s`: the metadata names the constant instead of its value" % (nm4, lit4.replace("\0", "\\0"), (ref4 or "").replace("\0", "\\0")))
+    ctx.require_count("R17.4", 15)
     cases = [(n, b, MK.split_meta(b)) for n, b in sorted(blocks.items())] + [("hand-made #%d" % i, b, e) for i, (b, e) in enumerate(HANDMADE)]
     for name, block, expect in cases:
         try:
